@@ -3,6 +3,14 @@ from __future__ import annotations
 import z3
 
 
+def simp(t):
+    """z3.simplify, unless it introduces z3-internal symbols (seq.nth_i / seq.nth_u) that other solvers reject"""
+    r = z3.simplify(t)
+    if 'seq.nth_' in r.sexpr():
+        return t
+    return r
+
+
 class Unsupported(Exception):
     """construct outside the encodable subset -> UNDECIDED, never a verdict"""
 
@@ -77,12 +85,12 @@ class Path:
             return
         if c is False:
             raise PathEnd()
-        c = z3.simplify(c)
-        if z3.is_true(c):
+        cs = z3.simplify(c)
+        if z3.is_true(cs):
             return
-        if z3.is_false(c):
+        if z3.is_false(cs):
             raise PathEnd()
-        self.pc.append(c)
+        self.pc.append(c)        # the unsimplified formula: z3's simplifier introduces internal symbols (seq.nth_i) other solvers reject
         if not heavy:
             self.solver.add(c)
 
@@ -98,10 +106,10 @@ class Path:
         """decide a condition; returns python bool and extends the path condition"""
         if isinstance(c, bool):
             return c
-        c = z3.simplify(c)
-        if z3.is_true(c):
+        cs = z3.simplify(c)
+        if z3.is_true(cs):
             return True
-        if z3.is_false(c):
+        if z3.is_false(cs):
             return False
         if self.pos < len(self.prefix):
             d = self.prefix[self.pos]
